@@ -170,6 +170,16 @@ func corpus() []*timing.Scenario {
 		s.Steps = steps([]int{20, 60}, []int{5, 40})
 		s.Ending = "reset"
 		add(s)
+		// proxy.stream_buffer_size below the default (the documentation's advice for a faster first token): events that fill
+		// the buffer exactly, or a whole number of times, followed by a long pause
+		for _, buf := range []int{1024, 2048, 4096} {
+			for _, mult := range []int{1, 2} {
+				s = base(e, auto, sse)
+				s.StreamBufferSize = buf
+				s.Steps = steps([]int{20, 400, 400}, []int{buf * mult, buf, 64})
+				add(s)
+			}
+		}
 	}
 	return out
 }
@@ -318,7 +328,7 @@ func main() {
 		scs = append(scs, rep.FailingCase.Scenario)
 	} else {
 		scs = corpus()
-		n, batch := 72, 36
+		n, batch := 84, 36
 		if tier == "thorough" {
 			n = 600
 		}
@@ -332,7 +342,7 @@ func main() {
 			if i%3 == 1 {
 				scs[i].NoResponseTimeout = true
 			}
-			if i%4 == 2 { // and a quarter with a stream buffer other than the default 8 KiB
+			if i%4 == 2 && scs[i].StreamBufferSize == 0 { // and a quarter with a stream buffer other than the default 8 KiB
 				scs[i].StreamBufferSize = []int{1024, 16384, 65536}[(i/4)%3]
 			}
 		}
